@@ -527,7 +527,7 @@ func genBloom(g *core.Gen) {
 					d[i] = byte(r.Pick(0, 0xff, 0x80, 0x7f))
 				}
 			}
-			g.Case("bloom-murmur", true, fmt.Sprintf("C20 bloommm %d %s", sd, hexTok(d)))
+			rec(g, "bloom-murmur", true, fmt.Sprintf("C20 bloommm %d %s", sd, hexTok(d)))
 		}
 	}
 	// boundary grid: sizes × hash-function counts × tweaks, one add + member/non-member lookups
@@ -543,7 +543,7 @@ func genBloom(g *core.Gen) {
 				if sz == 0 {
 					field = "-"
 				}
-				g.Case("bloom-grid", sz > 0, fmt.Sprintf("C20 bloom %s %d %d %d m:%s;a:%s;m:%s;m:%s", field, k, t, fl,
+				rec(g, "bloom-grid", sz > 0, fmt.Sprintf("C20 bloom %s %d %d %d m:%s;a:%s;m:%s;m:%s", field, k, t, fl,
 					hexTok(d), hexTok(d), hexTok(d), hexTok(r.Bytes(r.Intn(41)))))
 			}
 		}
@@ -555,14 +555,14 @@ func genBloom(g *core.Gen) {
 			o, _ := bloomTxOps(r)
 			ops = append(ops, o...)
 		}
-		g.Case("bloom-nil", false, fmt.Sprintf("C20 bloom nil %d %d %d %s", bloomRandFuncs(r), bloomRandTweak(r), bloomRandFlags(r), opsTok(ops)))
+		rec(g, "bloom-nil", false, fmt.Sprintf("C20 bloom nil %d %d %d %s", bloomRandFuncs(r), bloomRandTweak(r), bloomRandFlags(r), opsTok(ops)))
 	}
 	// the largest legal field, and one byte beyond
 	for i := 0; i < g.N(4, 40); i++ {
 		sz := r.Pick(36000, 36000, 36001, 35999)
 		k := uint32(r.Pick(0, 1, 50, 51, 11))
 		ops, mem := bloomDataOps(r, 2+r.Intn(6), 40)
-		g.Case("bloom-maxsize", mem > 0, fmt.Sprintf("C20 bloom z%d %d %d %d %s", sz, k, bloomRandTweak(r), bloomRandFlags(r), opsTok(ops)))
+		rec(g, "bloom-maxsize", mem > 0, fmt.Sprintf("C20 bloom z%d %d %d %d %s", sz, k, bloomRandTweak(r), bloomRandFlags(r), opsTok(ops)))
 	}
 	// data of every length 0..40 (murmur tails) through add/matches
 	for n := 0; n <= 40; n++ {
@@ -570,7 +570,7 @@ func genBloom(g *core.Gen) {
 			sz := bloomRandSize(r)
 			d := r.Bytes(n)
 			e := r.Bytes(n)
-			g.Case("bloom-len", true, fmt.Sprintf("C20 bloom %s %d %d %d a:%s;m:%s;m:%s", bloomRandField(r, sz), bloomRandFuncs(r),
+			rec(g, "bloom-len", true, fmt.Sprintf("C20 bloom %s %d %d %d a:%s;m:%s;m:%s", bloomRandField(r, sz), bloomRandFuncs(r),
 				bloomRandTweak(r), bloomRandFlags(r), hexTok(d), hexTok(d), hexTok(e)))
 		}
 	}
@@ -581,7 +581,7 @@ func genBloom(g *core.Gen) {
 			sz = 0
 		}
 		ops, mem := bloomDataOps(r, r.Intn(14), 40)
-		g.Case("bloom-ops", sz > 0 && mem > 0, fmt.Sprintf("C20 bloom %s %d %d %d %s", bloomRandField(r, sz), bloomRandFuncs(r),
+		rec(g, "bloom-ops", sz > 0 && mem > 0, fmt.Sprintf("C20 bloom %s %d %d %d %s", bloomRandField(r, sz), bloomRandFuncs(r),
 			bloomRandTweak(r), bloomRandFlags(r), opsTok(ops)))
 	}
 	// filter life cycle: AddHash / IsLoaded / Unload / Reload(nil) / Reload(new message) between data ops
@@ -627,7 +627,7 @@ func genBloom(g *core.Gen) {
 		if r.Chance(1, 8) {
 			first = fmt.Sprintf("nil %d %d %d", bloomRandFuncs(r), bloomRandTweak(r), bloomRandFlags(r))
 		}
-		g.Case("bloom-life", true, fmt.Sprintf("C20 bloom %s %s", first, opsTok(ops)))
+		rec(g, "bloom-life", true, fmt.Sprintf("C20 bloom %s %s", first, opsTok(ops)))
 	}
 	// transactions against the three update modes (+ invalid flag values)
 	for i := 0; i < g.N(700, 20000); i++ {
@@ -644,7 +644,7 @@ func genBloom(g *core.Gen) {
 		}
 		ops, class := bloomTxOps(r)
 		fl := bloomRandFlags(r)
-		g.Case(fmt.Sprintf("%s-fl%d", class, min(fl, 3)), sz > 0 && class != "bloom-tx-none", fmt.Sprintf("C20 bloom %s %d %d %d %s",
+		rec(g, fmt.Sprintf("%s-fl%d", class, min(fl, 3)), sz > 0 && class != "bloom-tx-none", fmt.Sprintf("C20 bloom %s %d %d %d %s",
 			bloomRandField(r, sz), k, bloomRandTweak(r), fl, opsTok(ops)))
 	}
 	// NewFilter-created filters: the shape is observed here (float sizing is not modelled), the ops run on
@@ -671,7 +671,7 @@ func genBloom(g *core.Gen) {
 		} else {
 			ops, mem = bloomDataOps(r, 1+r.Intn(8), 40)
 		}
-		g.Case("bloom-newfilter", len(msg.Filter) > 0 && mem > 0, fmt.Sprintf("C20 bloomnew %d %016x %d %d %d %d %s", el, math.Float64bits(fp), t, fl,
+		rec(g, "bloom-newfilter", len(msg.Filter) > 0 && mem > 0, fmt.Sprintf("C20 bloomnew %d %016x %d %d %d %d %s", el, math.Float64bits(fp), t, fl,
 			len(msg.Filter), msg.HashFuncs, opsTok(ops)))
 	}
 }
